@@ -190,6 +190,9 @@ func TestVerif_C01(t *testing.T) {
 				"Peer(0)", "Peer(33)", "Peer(70)", "Peer(4096)", "Limit(70)", "Limit(4096)")
 		}
 		dBlocks := vx.Pick(c, 7, 9)
+		// sizes above the 4096 default need Limit(16384) first: a small alphabet of their own
+		largeOps := c01Ops("B(k=v)", "B(big=z*100)", "Peer(70)", "Peer(4096)", "Peer(8192)", "Limit(4096)", "Limit(16384)")
+		dLarge := vx.Pick(c, 5, 8)
 		ops := vx.Pick(c, quickOps, thoroughOps)
 		seeds := [][]c01Op{
 			c01Ops("F(k=v)", "End"),
@@ -209,6 +212,7 @@ func TestVerif_C01(t *testing.T) {
 		d0, d1, dCore := vx.Pick(c, 3, 5), 4, 6
 		c.Rule(fmt.Sprintf("breadth-first search over every sequence of operations {%s} on one real Encoder + one real Decoder (NewDecoder(4096)) + an RFC 7541 reference decoder: part seq-seeded = depth %d from seed states whose tables hold 1, 2(, 3 in the thorough tier) small entries (seeds %v), part seq = depth %d from the initial state; states deduplicated on (encoder table/maxSize/minSize/tableSizeUpdate/maxSizeLimit, decoder table/maxSize/allowedMax, reference table, open block fields+bytes, size-change model). F/S write a (sensitive) field into the open block; End feeds the block to Decoder.Write in one piece + Close and compares emitted fields, errors, all three tables and the table index maps; Peer(v)=dec.SetAllowedMaxDynamicTableSize(v)+enc.SetMaxDynamicTableSize(v), Limit(w)=enc.SetMaxDynamicTableSizeLimit(w), both only between blocks. non-trivial = an applied transition whose comparisons were made (a branch is pruned after a divergence); distinct = distinct (representation kinds, size updates, block bytes) of accepted blocks", lab(ops), d1, seeds, d0))
 		c.Rule(fmt.Sprintf("part seq-blocks: the same search to depth %d from the initial state over {%s}, where B(f) is a complete one-field header block (write f, End)", dBlocks, lab(blockOps)))
+		c.Rule(fmt.Sprintf("part seq-large: the same to depth %d over {%s} (table sizes above the 4096 default)", dLarge, lab(largeOps)))
 		if !c.Quick() {
 			c.Rule(fmt.Sprintf("thorough only, part seq-core: the same search to depth %d from the first two seeds over the smaller alphabet {%s}", dCore, lab(coreOps)))
 		}
@@ -226,6 +230,8 @@ func TestVerif_C01(t *testing.T) {
 			Canon:   c01Canon,
 			Depth:   dBlocks,
 		}
+		vx.Seq(c, spec)
+		spec.Part, spec.Ops, spec.Depth = "seq-large", largeOps, dLarge
 		vx.Seq(c, spec)
 		spec.Part, spec.Ops, spec.Seeds, spec.Depth = "seq-seeded", ops, seeds, d1
 		vx.Seq(c, spec)
